@@ -251,33 +251,34 @@ type GhostPoint struct {
 }
 
 type FuncSpec struct {
-	Key        string // short SSA name, e.g. hranoprovod.(*Elements).Index
-	Variant    string // specialisation name ("" = the plain contract)
-	Bind       map[string]string
-	Returns    []string
-	ParamNames []string // for external functions (assumed contracts)
-	Requires   []*Clause
-	Ensures    []*Clause
-	Modifies   []Expr
-	ModAll     bool // modifies *
-	Decreases  Expr
-	Loops      map[int]*LoopSpec
-	Ghosts     []*GhostPoint
-	Props      []string
-	Assumed    bool // external / trusted: contract is assumed, body not checked
-	Inline     bool
-	Pure       bool
-	Refines    string // name of a func-type contract this function must satisfy
-	DynCalls   map[int]string // dyncall ordinal -> type contract name
-	CallUses   map[string]string // "callee#k" -> variant name used at that call site
-	NoSafety   bool
-	NoInherit  bool
-	Aspect     bool
-	AliasParams []string // parameter names of the refined type contract (positional aliases)
-	Captured   []*Clause // facts about immutable captured variables: checked where the closure is created, assumed at its entry
-	File       string
-	Line       int
-	Lets       []*Hint // named abbreviations: let name := expr (evaluated at entry)
+	Key         string // short SSA name, e.g. hranoprovod.(*Elements).Index
+	Variant     string // specialisation name ("" = the plain contract)
+	Bind        map[string]string
+	Returns     []string
+	ParamNames  []string // for external functions (assumed contracts)
+	Requires    []*Clause
+	Ensures     []*Clause
+	Modifies    []Expr
+	ModAll      bool // modifies *
+	Decreases   Expr
+	Loops       map[int]*LoopSpec
+	Ghosts      []*GhostPoint
+	Props       []string
+	Assumed     bool // external / trusted: contract is assumed, body not checked
+	Inline      bool
+	Pure        bool
+	Refines     string            // name of a func-type contract this function must satisfy
+	DynCalls    map[int]string    // dyncall ordinal -> type contract name
+	ParamCons   map[string]string // func-typed parameter -> type contract every actual argument must refine
+	CallUses    map[string]string // "callee#k" -> variant name used at that call site
+	NoSafety    bool
+	NoInherit   bool
+	Aspect      bool
+	AliasParams []string  // parameter names of the refined type contract (positional aliases)
+	Captured    []*Clause // facts about immutable captured variables: checked where the closure is created, assumed at its entry
+	File        string
+	Line        int
+	Lets        []*Hint // named abbreviations: let name := expr (evaluated at entry)
 }
 
 type SpecFun struct {
